@@ -30,6 +30,7 @@ META = {
         "C17.P2 send loop: ENQ precedes the block, a response byte is awaited before the block is written, one resolve(response == ACK) per dequeued block; the host yields on ENQ contention",
         "C17.P3 send_message stops after the first block that was not acknowledged (no further block of a NAKed message is sent) and reports False",
         "C17.W1 ByteQueue waits re-check their size predicate (any chunking of the line bytes), dispatcher wake-ups are not lost (an acknowledged block is delivered)",
+        "C17.S1 the header is laid out and read back bit by bit (shared with C16.B1); a message is complete exactly with the block carrying the end bit, header and completeness read from the last block (shared with C16.P3)",
     ],
     "does_not_decide": ["interleavings of the two line threads", "T1-T4 timers and retries (not implemented by the library)", "ENQ contention beyond the host's yield"],
     "assumptions": ["only one side transmits at a time (as the property states)"],
@@ -214,6 +215,12 @@ def run(ctx):
     from .c08 import check_stale_registrations
 
     report.share(ctx, "C17.P3", check_stale_registrations)  # a late reply is delivered, not swallowed by the queue of a request that gave up
+    # "arrives complete and unaltered with an identical header": the ten header bytes are laid out and read back bit by bit
+    # (C16.B1) and a message is complete exactly with the block that carries the end bit (C16.P3)
+    from .c16 import check_header, check_reassembly
+
+    report.share(ctx, "C17.S1", check_header)
+    report.share(ctx, "C17.S1", check_reassembly)
     check_bytequeue_wait(ctx, "C17.W1")
     from .c04 import check_byte_queue
 
